@@ -14,7 +14,7 @@ RULE = (
     "chains of 1-8 sampler steps on data sets built through the public path (Screen -> ExperimentSpace -> SparseDrugCombo -> "
     "add_observations -> step / sampling.sample): 1-5 samples, 1-8 treatments, D 1-4, 0-60 observations, combination and "
     "single-agent rows with the control in either column, treatments seen first / second / both, samples and treatments "
-    "without data. Every random draw is intercepted (generator proxy handed to set_rng, numpy.random.normal/gamma, "
+    "without data; histories include reset_model() between steps and observations added in two batches with steps in between. Every random draw is intercepted (generator proxy handed to set_rng, numpy.random.normal/gamma, "
     "sample_mvn_from_precision in the model's namespace) with the full sampler state before the draw, and its parameters "
     "are compared with a float64 re-derivation of the full conditional from the parameters alone; fitted values, bounds, "
     "block order and the exported sample are checked after every block / step; sample_mvn_from_precision is driven with "
@@ -32,7 +32,7 @@ REQUIRED = {
     "draws_W0": {"quick": 500, "thorough": 10000}, "draws_V0": {"quick": 800, "thorough": 16000}, "draws_W": {"quick": 500, "thorough": 10000},
     "draws_V2": {"quick": 800, "thorough": 16000}, "draws_V1": {"quick": 800, "thorough": 16000}, "draws_gamma": {"quick": 4000, "thorough": 80000},
     "mu_checks": {"quick": 4000, "thorough": 80000}, "steps_checked": {"quick": 400, "thorough": 8000}, "exports_checked": {"quick": 400, "thorough": 8000},
-    "mvn_affine_maps": {"quick": 100, "thorough": 2000},
+    "mvn_affine_maps": {"quick": 100, "thorough": 2000}, "resets_between_steps": {"quick": 40, "thorough": 600}, "second_batches_added_between_steps": {"quick": 40, "thorough": 600},
 }
 N_CHAINS = {"quick": 800, "thorough": 12800}
 
@@ -433,10 +433,18 @@ def run_shard(rec, tier, seed, shard, nshards):
         tids = np.asarray(screen.treatment_ids)
         w_info = {"rows": int(screen.size), "observed_rows": int(sub.size) if sub is not None else 0, "D": D, "n_samples": int(ExperimentSpace.from_screen(screen).n_unique_samples), "n_treatments": int(ExperimentSpace.from_screen(screen).n_unique_treatments), "steps": n_steps}
         with kit.Patches() as P:
+            later = None
             try:
                 model = SparseDrugCombo(experiment_space=ExperimentSpace.from_screen(screen), n_embedding_dimensions=D)
                 if sub is not None:
-                    model.add_observations(sub)
+                    if sub.size >= 2 and rng.random() < 0.35:
+                        # the observations arrive in two batches, the second one after some sampler steps
+                        first = rng.random(sub.size) < 0.5
+                        if first.any() and not first.all():
+                            model.add_observations(sub.subset(first))
+                            later = sub.subset(~first)
+                    if later is None:
+                        model.add_observations(sub)
             except Exception as e:
                 rec.did_not_return("build-model", e)
                 continue
@@ -445,6 +453,11 @@ def run_shard(rec, tier, seed, shard, nshards):
             impl = model.wrapped_model
             via_sampling = bool(rng.random() < 0.3)
             try:
+                export_sub = sub
+                if via_sampling and later is not None:
+                    model.add_observations(later)  # two batches, no step in between
+                    later = None
+                    export_sub = None  # training rows are now ordered first batch, second batch
                 if via_sampling:
                     # sampling.sample calls set_rng itself: capture it and keep the proxy in place
                     orig_set = model.set_rng
@@ -457,12 +470,21 @@ def run_shard(rec, tier, seed, shard, nshards):
                     thetas = holder.thetas[-1:]
                 else:
                     thetas = []
+                    seen_sub = sub if later is None else None
                     for s_ in range(n_steps):
+                        if later is not None and s_ == (n_steps // 2):
+                            model.add_observations(later)
+                            later = None
+                            seen_sub = None  # row order of the training data is now first batch + second batch
+                            rec.count("second_batches_added_between_steps")
+                        elif s_ and rng.random() < 0.12:
+                            model.reset_model()
+                            rec.count("resets_between_steps")
                         model.step()
                         thetas = [model.get_model_state()]
-                        check_export(rec, model, impl, sub, thetas[0], w)
+                        check_export(rec, model, impl, seen_sub, thetas[0], w)
                 if via_sampling and thetas:
-                    check_export(rec, model, impl, sub, thetas[0], w)
+                    check_export(rec, model, impl, export_sub, thetas[0], w)
             except Exception as e:
                 rec.violation("C08/step/raises", "sampler step raised %r\n%s" % (e, kit.tb()), w)
             rec.count("chains_run")
